@@ -94,16 +94,17 @@ def s2(ctx, rep):
     cr = [r.value for r in returns_of(g) if isinstance(r.value, ast.Tuple) and len(r.value.elts) == 2]
     if not cr:
         raise AnchorError("cholesky_computations does not return (factor, prediction matrix)")
+    from ..engine import deref
     cfn, pmn = U(cr[0].elts[0]), U(cr[0].elts[1])
     bad = _depends(g, [cfn], ["targets"])
     rep.put(not bad, "S2", "noninterference", "cholesky_computations: the Cholesky factor does not depend on the targets", g, None, "",
             "the factor depends on the targets: independent target columns would interact")
-    pm = [d for d in local_defs(g, pmn) if not isinstance(d, tuple)]
-    ok = len(pm) == 1 and isinstance(pm[0], ast.Call) and fn_name(pm[0]) == "solve_triangular" and U(pm[0].args[0]) == cfn and \
+    pm = [deref(g, cr[0].elts[1])]
+    ok = isinstance(pm[0], ast.Call) and fn_name(pm[0]) == "solve_triangular" and U(pm[0].args[0]) == cfn and \
         U(kwarg(pm[0], "lower")) == "True"
     if ok:
-        cy = [d for d in local_defs(g, U(pm[0].args[1])) if not isinstance(d, tuple)]
-        ok = len(cy) == 1 and isinstance(cy[0], ast.BinOp) and isinstance(cy[0].op, ast.Sub) and U(cy[0].left) == "targets" and "mean(features)" in U(cy[0].right)
+        cy = [deref(g, pm[0].args[1])]
+        ok = isinstance(cy[0], ast.BinOp) and isinstance(cy[0].op, ast.Sub) and U(cy[0].left) == "targets" and "mean(features)" in U(cy[0].right)
     rep.put(ok, "S2", "agreement", "cholesky_computations: P = solve_triangular(L, Y - mean(X), lower=True), column by column", g, None, "")
     h = P.func(MODP + "cholesky_update")
     sqv = vars_assigned_from(h, lambda v: any(isinstance(x, ast.Call) and fn_name(x) == "sqrt" for x in ast.walk(v)))
@@ -125,8 +126,8 @@ def s3(ctx, rep):
     ok = ok and len(tdef) == 1 and any(isinstance(x, ast.Call) and fn_name(x) == "multiply" for x in ast.walk(tdef[0]))
     rep.put(ok, "S3", "agreement", "sample_and_cholesky_update: updates with the column it computed and the target it sampled, and returns that target", g,
             call[0] if call else None, "", "the state is updated with a different target (or column) than the one sampled and returned")
-    fnn = U(r[0].value.elts[2]) if len(r) == 1 and isinstance(r[0].value, ast.Tuple) and len(r[0].value.elts) >= 3 else "?"
-    fn = [d for d in local_defs(g, fnn) if not isinstance(d, tuple)]
+    from ..engine import deref
+    fn = [deref(g, r[0].value.elts[2])] if len(r) == 1 and isinstance(r[0].value, ast.Tuple) and len(r[0].value.elts) >= 3 else []
     ok = len(fn) == 1 and U(fn[0]).replace(" ", "") == "anp.concatenate([features,feature],axis=0)"
     rep.put(ok, "S3", "agreement", "sample_and_cholesky_update: the new feature row is appended last", g, None, "")
 
